@@ -23,7 +23,7 @@ noise = st.tuples(st.integers(0, 1 << 30), st.integers(1, 64), st.integers(0, 25
 
 # size/offset/count-directed mutations: one or two length, offset or count fields of an xattr entry / directory entry / extent / htree node / inode / descriptor set to a wrapping or boundary value,
 # checksum fixed up so that the consumer behind the checksum test sees it
-_DCLS = [corrupt.CLASSES.index(c) for c in ('xattr', 'xattr', 'dirent', 'extent', 'dx', 'inode', 'gd', 'sb', 'special')]
+_DCLS = [corrupt.CLASSES.index(c) for c in ('xattr', 'xattr', 'dirent', 'extent', 'dx', 'inode', 'gd', 'sb', 'special', 'geom', 'geom', 'dirmap', 'eadup', 'dirloop')]
 _DKINDS = [corrupt.KINDS.index(k) for k in ('wrap', 'wrap', 'ones', 'out_of_range', 'small', 'zero', 'dec', 'inc')]
 directed = st.tuples(st.sampled_from(_DCLS), st.integers(0, 500), st.integers(0, 200), st.sampled_from(_DKINDS), st.integers(0, 1 << 20), st.just(True))
 def strategy(env):
